@@ -49,6 +49,37 @@ CHECKS = {
              'moments of (pulled - delivered) and (started - delivered) is compared with buffer_size+2 and '
              'buffer_size. Probes show that both bounds are reached exactly, so the buffers are driven full.',
         note='Schedules sampled; simple 1:1 pipelines so that pulls, starts and deliveries count the same unit.'),
+    'C12': dict(
+        level='exploration', ref='4 (C12)',
+        technique='deterministic simulation: seeded / exhaustive interleaving of the next() calls of 1-3 '
+                  'iterators over one dataset object, adversary steps on the global numpy state',
+        text='All interleavings (when at most 60, otherwise 16 sampled) of the next() calls of up to three '
+             'iterators over one shuffled dataset object, for every shuffle flavour, lengths 0-7, explicit and '
+             'global generators, self-zip / self-intersperse; each iterator\'s multiset and the local-shuffle '
+             'displacement bound are checked on the recorded outputs. The shared in-place permutation of '
+             'ReShuffleDataset is reported as a known finding.',
+        note='Single thread: the interleaving of next() calls is the schedule; inputs are pairwise distinct.'),
+    'C13': dict(
+        level='exploration', ref='4 (C13)',
+        technique='deterministic simulation: equal-seeded builds, copies and prefetch variants stepped by a '
+                  'seeded operation list with an adversary perturbing the global numpy state; thread simulator '
+                  'for the prefetch variants',
+        text='Two equal-seeded builds, copy(), copy(freeze=True), prefetch(1,b) and prefetch(w,b) of generated '
+             'pipelines with random stages at any depth are iterated for 2-3 epochs, their steps interleaved with '
+             'reseeding / advancing the global numpy state; epochs must agree pairwise, frozen variants must repeat, '
+             'ordered must reflect reshuffling stages and vars() of every stage must survive copy().',
+        note='Sampled op lists and schedules; the copy variant is taken from a fresh build as the property states.'),
+    'C14': dict(
+        level='fault_enumeration', ref='4 (C14)',
+        technique='deterministic fault injection: every failing position enumerated (plus subsets) in '
+                  'instrumented user functions; reference = position-by-position evaluation of an independent build',
+        text='For generated indexable pipelines below catch(E) every single failing position, pairs and random '
+             'subsets are injected with exception kinds inside and outside E (type, tuple, subclass); value and '
+             'items() iteration, twice and with early stop; survivors, the position of a foreign exception and its '
+             'identity are compared with an independent evaluation; lazy filter, eager filter and '
+             'FilterException+catch are compared for equal predicates. No schedule exists here: the fault plan is '
+             'the whole search space.',
+        note='Failing examples fail deterministically; duplicate keys under key iteration (loud refusal) not generated.'),
 }
 
 NOT_APPLICABLE = {
